@@ -49,6 +49,15 @@ Theorem C08_adjacency_cdn_start_at_upper_outer : forall n0 n1 n2 n3 n4 n5 a nx n
     model_up conn_cdn_uo [n0; n1; n2; n3; n4; n5] [0; a; nx] x j = bout_up t (n0 + n1 + n2 + n3 + n4 + n5) x j.
 Proof. intros. eapply cdn_uo_adjacency; eauto. Qed.
 
+(* the isolated X-point topology (TORPEX: four legs, all on the wall; table REGENERATED from torpex.py): adjacency = BOUT++'s reading of the integers
+   (two X-points on top of each other, second pair of targets at ny_inner), and the integers are ordered, for EVERY vector of leg sizes *)
+Theorem C08_adjacency_isolated_xpoint : forall n0 n1 n2 n3 a nx ny, 0 < n0 -> 0 < n1 -> 0 < n2 -> 0 < n3 -> 0 < a < nx ->
+  forall t x j dn sepidx,
+    topo_ints [0; a; nx] [n0; n1; n2; n3] nx ny (n0 + n1 + n2 + n3) dn sepidx = Some t ->
+    (0 <= x < nx -> 0 <= j < n0 + n1 + n2 + n3 -> model_up conn_xpt [n0; n1; n2; n3] [0; a; nx] x j = bout_up t (n0 + n1 + n2 + n3) x j) /\
+    ordered t (n0 + n1 + n2 + n3).
+Proof. intros. split; [intros; eapply xpt_adjacency; eauto | eapply xpt_ordered; eauto]. Qed.
+
 (* findings proved as refutations of the full-strength statements (replayed on the implementation by the harness):
    F14 start_at_upper_outer with a disconnected double null; F3 index ordering in single null *)
 Theorem C08_adjacency_ldn_start_at_upper_outer_refuted :
@@ -100,3 +109,4 @@ Print Assumptions C08_ordered_single_null_refuted.
 Print Assumptions C08_tiling_exists.
 Print Assumptions C08_tiling_unique.
 Print Assumptions C08_symmetric.
+Print Assumptions C08_adjacency_isolated_xpoint.
